@@ -463,7 +463,8 @@ Proof.
 Qed.
 Theorem write_doc_in_namespace date d v : write_doc U date d = Ok v -> in_ns v.
 Proof.
-  unfold write_doc. destruct (mapM (write_container U) (xd_containers d)) as [cs|] eqn:C; cbn [bind]; [|discriminate].
+  unfold write_doc. destruct (forallb time_writable (xd_types d)); cbn [negb]; [|discriminate].
+  destruct (mapM (write_container U) (xd_containers d)) as [cs|] eqn:C; cbn [bind]; [|discriminate].
   intro H. injection H as <-. repeat first [apply ns_ptype | apply ns_param | ns1]. eapply ns_containers; eauto.
 Qed.
 End NS.
@@ -693,7 +694,7 @@ Ltac fstep := repeat (progress (
 (* a time type writes a first order default polynomial also as the scale and offset attributes of <Encoding> (any other
    polynomial stays with the data encoding alone) and the reader rebuilds [offset; scale] from them: every polynomial survives
    except [scale; offset] written in that order, which comes back as [offset; scale] (the same function, another term order).
-   A spline is refused by the real writer (ValueError), which the total model writer does not show: excluded. *)
+   A spline and a data encoding that is not numeric are refused by the writer ([time_writable], a ValueError in the code). *)
 Definition time_default_ok (e : xencoding) : Prop :=
   match e with
   | XNum ne => match xn_default ne with
@@ -701,7 +702,7 @@ Definition time_default_ok (e : xencoding) : Prop :=
                | Some (XSpline _ _ _) => False
                | Some (XPoly ts) => map snd ts <> [1%Z; 0%Z]
                end
-  | _ => True
+  | _ => False
   end.
 Definition ptype_wf (t : xptype) : Prop :=
   encoding_wf (xt_enc t) /\ xt_unit t <> Some "" /\
@@ -783,7 +784,7 @@ Proof.
       fstep; step; reflexivity. }
   rewrite EP, OF. clear EP OF RT FE Un So. clearbody PT EN.
   (* scale / offset *)
-  unfold so. destruct enc as [ne|se|s0]; try reflexivity. cbn [time_default_ok] in Wt. destruct ne as [fl sz en od df cx]. cbn [xn_default] in *.
+  unfold so. destruct enc as [ne|se|s0]; [|destruct Wt|destruct Wt]. cbn [time_default_ok] in Wt. destruct ne as [fl sz en od df cx]. cbn [xn_default] in *.
   destruct df as [[ts|o1 o2 pts]|]; [|destruct Wt|reflexivity].
   destruct (linear_exps ts) eqn:L; cbn [negb]; [|reflexivity].
   unfold linear_exps in L.
@@ -912,6 +913,7 @@ Definition with_date (d : xdoc) (date : string) : xdoc :=
 Theorem rt_doc date d v : doc_wf d -> write_doc U date d = Ok v -> read_doc U v = Ok (with_date d date).
 Proof.
   intros (Wt & Wp & Wc & Wn & Wd) H. unfold write_doc in H.
+  destruct (forallb time_writable (xd_types d)); cbn [negb] in H; [|discriminate].
   destruct (mapM (write_container U) (xd_containers d)) as [cs|] eqn:C; cbn [bind] in H; [|discriminate]. injection H as <-.
   unfold read_doc.
   assert (RT : mapM (read_ptype U) (map (write_ptype U) (xd_types d)) = Ok (xd_types d)).
@@ -934,11 +936,33 @@ Theorem write_read_write date d v : doc_wf d -> write_doc U date d = Ok v ->
 Proof.
   intros W H. exists (with_date d date). split; [now apply rt_doc|].
   unfold write_doc in *. cbn [with_date xd_containers xd_types xd_params xd_name xd_date].
+  destruct (forallb time_writable (xd_types d)); cbn [negb] in *; [|discriminate].
   destruct (mapM (write_container U) (xd_containers d)) as [cs|]; cbn [bind] in *; [|discriminate]. injection H as <-.
   do 6 f_equal. destruct W as (_ & _ & _ & _ & Wd). unfold nonempty.
   destruct (xd_date d) as [x|].
   - destruct (String.eqb_spec x "") as [->|Hx]; [congruence|reflexivity].
   - destruct (String.eqb date ""); reflexivity.
+Qed.
+
+(* every well-formed document IS written: the refusals of the writer (a time type it cannot express, restriction criteria
+   without a base container) lie outside [doc_wf], so the round-trip theorems are about every well-formed document *)
+Lemma wf_time_writable t : ptype_wf t -> time_writable t = true.
+Proof.
+  intros (_ & _ & Wk). unfold time_writable. destruct (xt_kind t); try reflexivity. unfold time_default_ok in Wk.
+  destruct (xt_enc t) as [ne| |]; try contradiction. destruct (xn_default ne) as [[ts|? ? ?]|]; try contradiction; reflexivity.
+Qed.
+Lemma wf_containers_written cs : Forall container_wf cs -> exists vs, mapM (write_container U) cs = Ok vs.
+Proof.
+  induction 1 as [|c t (_ & _ & Hc) _ (vs & IH)]; [now exists []|]. cbn [mapM]. unfold write_container at 1.
+  destruct (xk_base c) as [b|].
+  - destruct (xk_criteria c); cbn [bind]; rewrite IH; cbn [bind]; eauto.
+  - rewrite Hc. cbn [bind]. rewrite IH. cbn [bind]. eauto.
+Qed.
+Theorem wf_doc_written date d : doc_wf d -> exists v, write_doc U date d = Ok v.
+Proof.
+  intros (Wt & _ & Wc & _). unfold write_doc.
+  assert (T : forallb time_writable (xd_types d) = true) by (apply forallb_forall; rewrite Forall_forall in Wt; intros t Ht; apply wf_time_writable; auto).
+  rewrite T. cbn [negb]. destruct (wf_containers_written _ Wc) as (vs & ->). cbn [bind]. eauto.
 Qed.
 End Doc.
 
